@@ -958,7 +958,7 @@ def f_remove(P):
     if [(k, t) for k, t, _, _ in fi.params] != [("ref", "SparseMatrix"), ("ref", "IVec")] or fi.ret != "void":
         raise X.ExtractionBreak("%s: signature changed" % name)
     MT, V = pname(fi, 0), pname(fi, 1)
-    ml = re.search(r"for \(int (\w+) = 0; \1 < %s\.cols\(\); \1\+\+\)" % MT, f.body)
+    ml = re.search(r"for \(int (\w+) = 0; \1 <=? %s\.cols\(\); (?:\1\+\+|\+\+\1)\)" % MT, f.body)
     mc = re.search(r"\bint (\w+) = 0;", f.body)
     mt = re.search(r"std::vector<Eigen::Triplet<Scalar>> (\w+);", f.body)
     if not (ml and mc and mt):
@@ -1038,8 +1038,8 @@ def f_check(P):
     if [(k, t) for k, t, _, _ in fi.params] != [("ref", "SparseMatrix"), ("scalar", "Scalar"), ("ref", "IVec")] or fi.ret != "int":
         raise X.ExtractionBreak("%s: signature changed" % name)
     RES, TOL, V = pname(fi, 0), pname(fi, 1), pname(fi, 2)
-    mo = re.search(r"for \(int (\w+) = 0; \1 < m_nev; \1\+\+\)", f.body)
-    mi = re.search(r"for \(int (\w+) = 0; \1 < m_n; \1\+\+\)", f.body)
+    mo = re.search(r"for \(int (\w+) = 0; \1 <=? m_nev; (?:\1\+\+|\+\+\1)\)", f.body)      # a changed bound is a failed invariant / index obligation, not an extraction break
+    mi = re.search(r"for \(int (\w+) = 0; \1 <=? m_n; (?:\1\+\+|\+\+\1)\)", f.body)
     mb = re.search(r"\bint (\w+) = m_nev;", f.body)
     mt = re.search(r"if \(sqrt\((\w+)\) < %s\)" % TOL, f.body)
     if not (mo and mi and mb and mt) or mo.start() > mi.start():
@@ -1138,7 +1138,7 @@ def f_compute(P):
     pre_rules = [
         ("index-list", r"std::vector<int> %s;" % V, "IVec %s; %s.data = malloc((2 * (Index)m_nev + 1) * sizeof(int)); __CPROVER_assume(%s.data != NULL); %s.size = 0;" % (V, V, V, V), {"max": 1}),
         ("index-list.size", r"\b%s\.size\(\)" % V, "%s.size" % V, {"min": 1}),
-        ("index-list.clear", r"\b%s\.clear\(\);" % V, "%s.size = 0;" % V, {"min": 1}),
+        ("index-list.clear", r"\b%s\.clear\(\);" % V, "%s.size = 0;" % V, {"min": 0}),
         ("Aop", r"DenseSymMatProd<Scalar> (\w+)\((\w+)\);", lambda m: "EIG_ASSERT(%s.rows() == %s.cols(), %s); const Index %s_n = %s.rows();" %
          (m.group(2), m.group(2), Q("DenseSymMatProd: the symmetric operator is a square matrix"), m.group(1), m.group(2)), {"max": 1}),
         ("Bop", r"DenseCholesky<Scalar> (\w+)\((\w+)\);", lambda m: "EIG_ASSERT(%s.rows() == %s.cols(), %s); const Index %s_n = %s.rows();" %
